@@ -18,6 +18,19 @@ declared reactant, atoms of the reactants are labelled consecutively):
           single and double bonds, the FULL edit alphabet of the unimolecular
           family on the labels of either reactant
   tri   : three reactants, every permutation of the names r1, r2, r3
+Declared radical counts (domains/w4_c16.py): a carbon pattern atom states its
+radical count by a suffix (none, `.`, `:`, `?`) or as `C?` with one constraint
+`{[!] has <op> n radical electrons}`, op in {=, >=, <=, >, <}, n in 0..2:
+  rad1  : one-atom rules, every declaration x every sequence of length <= 3
+          over {radical +1, -1, := 0/1/2}
+  rad2  : two-atom rules (declared atom first or second), + bond edits
+  radb  : the declared atom as / in the second of two reactants
+A pattern that admits several radical counts makes `radical := n` unbalanced
+for some match (must be rejected) and makes `radical -1` inapplicable to
+matched atoms without radical electrons (RunReactants must raise, not return).
+Molecule presentations: aromatic compounds as parsed (aromatic bonds) and in
+Kekule form with the aromatic flags cleared are part of the molecule set of
+every unimolecular rule.
 """
 import itertools
 
@@ -25,6 +38,7 @@ from ..runner import Result
 from ..models import ringref, ruleref
 from ..domains import molecules as MD
 from ..domains import w3_c16 as W3
+from ..domains import w4_c16 as W4
 
 LEVEL = 'exploration'
 ATOMS5 = ['C', 'C?', 'C.', 'H', 'O?']
@@ -48,13 +62,29 @@ BOUND = {
              'single/double for rules of <= 3 atoms, 6 x 6 molecule pairs; '
              'three-reactant rules: 1 x 2 x 2 patterns x the 6 permutations of the '
              'names r1, r2, r3 x balanced sequences of length <= 3 and unbalanced '
-             'ones of length <= 2 over the basic edits, 3 x 3 x 3 molecule triples',
+             'ones of length <= 2 over the basic edits, 3 x 3 x 3 molecule triples; '
+             'molecule presentations: toluene, benzene, furan, benzyl radical, each as '
+             'parsed and in Kekule form with cleared aromatic flags, in the molecule '
+             'set of every unimolecular rule (8 more molecules); declared radical '
+             'counts: 34 declarations of a carbon pattern atom (C, C., C:, C?, and C? '
+             'with has / ! has <op> n radical electrons, 5 operators x n in 0..2) x '
+             '[one-atom rules, all sequences of length <= 3 over {+1, -1, := 0, := 1, '
+             ':= 2}; 3 two-atom shapes, all sequences of length <= 2 and the balanced '
+             'ones of length 3 over those + partner +1 / -1 + break / increase / '
+             'decrease order; second reactant behind C?-H] and the 6 x 6 pairs of a '
+             '6-letter sub-alphabet as two one-atom reactants (+ form bond across); 9 '
+             'molecules with carbons of 0..3 radical electrons (two reactants: 4 x 4 '
+             'pairs); 206 rule shapes',
     'thorough': 'as quick with length-3 sequences over the full alphabet for '
                 '1-2 atom patterns, length 4 over the basic edits, triple bonds '
                 'and 4-atom chains; molecules M(3) C/O with radicals + 10; '
                 'reactant names: the 29 other ordered pairs from {r1, r2, r10, B, '
                 'a, z_9}, 8 x 8 molecule pairs; full-alphabet two-reactant rules: '
-                'length 3 for rules of <= 4 atoms; three-reactant rules as quick'}
+                'length 3 for rules of <= 4 atoms; three-reactant rules as quick; '
+                'molecule presentations: 7 aromatic compounds x 2; declared radical '
+                'counts: n in 0..3 (44 declarations), 5 two-atom shapes, first '
+                'reactants C?-H and C., 14 molecules incl. [C] (two reactants: 5 x 5 '
+                'pairs), 388 rule shapes'}
 RULE = ('every (pattern, edit sequence) is written as rule text and read; '
         'sequences that are well defined on the evolving pattern are judged: '
         'unbalanced => RINGReaderError, balanced => a rule; every rule that '
@@ -68,7 +98,16 @@ RULE = ('every (pattern, edit sequence) is written as rule text and read; '
         'element of the cartesian product of the reference matches of the '
         'i-th declared pattern in the i-th molecule, edits applied to the '
         'disjoint union of the molecules; the molecule objects passed in must '
-        'stay untouched')
+        'stay untouched.  Declared radical counts: the set of radical counts '
+        '(0..4) a pattern atom admits is computed from its suffix and '
+        'constraints; one stated value = the count is fixed and every edit is '
+        'judged against it; several values = relative edits are judged as '
+        'usual, and a sequence with radical := n on that atom is unbalanced '
+        '(for every admitted count but one) => RINGReaderError; when run, a '
+        '(rule, molecules) case in which some reference match meets a radical '
+        'decrease on an atom without radical electrons, or an order change of '
+        'an aromatic bond, must end with an exception, otherwise with exactly '
+        'the reference product sets')
 ASSUMPTIONS = ['charge edits and atom-type edits are not judged (the balance '
                'clause speaks of bond and radical edits)',
                'radical := n is judged on atoms whose pattern fixes the radical '
@@ -86,7 +125,25 @@ ASSUMPTIONS = ['charge edits and atom-type edits are not judged (the balance '
                'ill-defined sequences and documented refusals (incl. break/modify '
                'across reactants) are enumerated but not judged there',
                'in the name and three-reactant families unbalanced sequences '
-               'longer than 2 edits are enumerated but not read']
+               'longer than 2 edits are enumerated but not read',
+               'declared radical counts: a count that is only implied (one value '
+               'left by an inequality or a negation, e.g. `has <1`) is not accepted '
+               'as a declaration for radical := n (either verdict allowed); a pattern '
+               'that admits no count at all is not judged; for the bookkeeping an '
+               'atom of unknown count stands in with two radical electrons, so '
+               'sequences with three net decreases on it are not judged, nor is '
+               'radical := n on an atom declared with more than 2 radical electrons '
+               '(thorough tier only); in the rad2 '
+               'and radb families unbalanced sequences of 3 edits are enumerated but '
+               'not read',
+               'a match that cannot take an edit (radical decrease on an atom without '
+               'radical electrons, order change of an aromatic bond matched by a '
+               'pattern bond of unspecified order) has no product set with exactly '
+               'the declared edits: any exception is accepted as the refusal, a '
+               'returned result is not',
+               'Kekule presentations are made by RDKit (Kekulize with '
+               'clearAromaticFlags); products of unsanitised fragments are compared '
+               'as they are, without re-perceiving aromaticity']
 MANIFEST = dict(
     technique='bounded-exhaustive enumeration of rule programs x small '
               'molecules vs own electron bookkeeping and edit applier',
@@ -102,7 +159,13 @@ MANIFEST = dict(
          'sequences up to length 3, also under every ordered pair of reactant '
          'names from a 4-name (thorough: 6-name) alphabet; two-reactant rules '
          'with 2-3 atom second reactants over the full edit alphabet up to '
-         'length 2 (3 on small rules); a small three-reactant family; charge '
+         'length 2 (3 on small rules); a small three-reactant family; aromatic '
+         'compounds as parsed and in Kekule form among the molecules; pattern '
+         'atoms that declare their radical count by suffix or by a (negated) '
+         '`has <op> n radical electrons` constraint in one- and two-atom rules and '
+         'as second reactant, with radical := n required to be rejected where the '
+         'pattern admits several counts and a radical decrease on a matched atom '
+         'without radical electrons required to raise; charge '
          'and atom-type edits are outside the bound.',
     ref='5/C16')
 
@@ -178,9 +241,11 @@ def molset(tier):
         return _MOLS[tier]
     from rdkit import Chem
     smis = MD.M(2 if tier == 'quick' else 3, ('C', 'O'), 2) + EXTRA_MOLS
+    # wave 4: aromatic compounds as parsed and in Kekule form (`kek:` labels)
+    smis = smis + W4.presentations(tier)
     out = []
     for s in smis:
-        m = Chem.MolFromSmiles(s)
+        m = W4.mol_from(s)
         mh = Chem.AddHs(m)
         out.append((s, m, mh, ringref.G(mh)))
     _MOLS[tier] = out
@@ -237,9 +302,13 @@ def judge_rule(R, atoms, seq, tier, mols=None):
     fr = ringref.parse_fragment(ruleref.fragment_text(atoms))
     for smi, m, mh, g in (mols or molset(tier)):
         matches = ringref.ref_matches_g(fr, g)
-        exp = sorted(ruleref.apply_edits(mh, mt, seq) for mt in matches)
+        # a match that cannot take an edit (order change of an aromatic bond
+        # matched by a pattern bond of unspecified order): no product set can
+        # carry exactly the declared edits, RunReactants has to raise
+        refuse = any(W4.inapplicable(mh, mt, seq) for mt in matches)
+        exp = None if refuse else sorted(ruleref.apply_edits(mh, mt, seq) for mt in matches)
         R.evals += 1
-        if exp:
+        if matches:
             R.nontrivial += 1
         try:
             arg = Chem.Mol(m)
@@ -255,6 +324,17 @@ def judge_rule(R, atoms, seq, tier, mols=None):
         except Exception as e:     # noqa
             gotp = 'EXC:%s' % type(e).__name__
             cons = True
+        if refuse:
+            if isinstance(gotp, str):
+                R.outcomes['run:inapplicable:refused(%s)' % gotp[4:]] += 1
+                continue
+            R.outcomes['run:inapplicable:returned'] += 1
+            R.violation('run:inapplicable-edit-returned:' + sig,
+                        '%r on %s: at least one of the %d matches cannot take an edit '
+                        '(order change of an aromatic bond / radical decrease without a '
+                        'radical electron); RunReactants returned %r instead of raising'
+                        % (text, smi, len(matches), gotp[:2]), dict(wit, smiles=smi))
+            continue
         if gotp == exp and cons:
             R.outcomes['run:same:%s' % ('products' if exp else 'no-match')] += 1
             if exp:
@@ -488,6 +568,148 @@ def judge_multi(R, fam, pats, names, seq, mol_alphabet, only=None, unbalanced_ma
                         gotp if isinstance(gotp, str) else gotp[:2]), w2)
 
 
+# ------------------------------------- declared radical counts (wave 4)
+#
+# domains/w4_c16.py: pattern atoms that declare their radical count by a
+# suffix or by a `has <op> n radical electrons` constraint.  Judged by the same
+# bookkeeping (run on the bookkeeping-equivalent plain pattern); in addition
+#   - `radical := n` on an atom whose pattern admits several radical counts
+#     cannot be balanced for every match -> the rule must be rejected;
+#   - a match on which a radical decrease meets an atom without radical
+#     electrons cannot be given a product set -> RunReactants must raise.
+
+_RAD_PREP = {}
+
+
+def rad_prepared(pats, mol_alphabet):
+    """what does not depend on the edit sequence, per tuple of molecules: the
+    molecules, their hydrogen-explicit copies, the disjoint union and the
+    reference matches as atom indices of the union (kept for the pattern
+    last used only)"""
+    from rdkit import Chem
+    key = (repr(pats), tuple(mol_alphabet))
+    if key in _RAD_PREP:
+        return _RAD_PREP[key]
+    frs = [ringref.parse_fragment(W4.fragment_text(p)) for p in pats]
+    out = []
+    for smis in itertools.product(mol_alphabet, repeat=len(pats)):
+        ms = [Chem.MolFromSmiles(s) for s in smis]
+        hs = [Chem.AddHs(m) for m in ms]
+        comb, offs = hs[0], [0]
+        for h in hs[1:]:
+            offs.append(comb.GetNumAtoms())
+            comb = Chem.CombineMols(comb, h)
+        per = [ringref.ref_matches_g(f, ringref.G(h)) for f, h in zip(frs, hs)]
+        idxs = []
+        for combo in itertools.product(*per):
+            idx = []
+            for mt, off in zip(combo, offs):
+                idx += [v + off for v in mt]
+            idxs.append(idx)
+        out.append((smis, ms, hs, comb, per, idxs))
+    _RAD_PREP.clear()
+    _RAD_PREP[key] = out
+    return out
+
+
+def judge_rad(R, fam, pats, seq, mol_alphabet, only=None, unbalanced_maxlen=None):
+    from rdkit import Chem
+    from pgradd.RINGParser import Read
+    from pgradd.Error import RINGReaderError
+    atoms = W4.combined(pats)
+    status, balanced = W4.analyse(atoms, seq)
+    R.evals += 1
+    if status != 'judged':
+        R.outcomes[fam + ':unjudged'] += 1
+        return
+    if not balanced and unbalanced_maxlen is not None and len(seq) > unbalanced_maxlen:
+        R.outcomes[fam + ':outside-bound(long unbalanced)'] += 1
+        return
+    text = W4.rule_text(pats, seq)
+    wit = dict(kind='rad', fam=fam, pats=[W4.enc_pat(p) for p in pats],
+               seq=[list(e) for e in seq], mols=None)
+    try:
+        q = Read(text)
+        got = 'rule'
+    except RINGReaderError:
+        got = 'RINGReaderError'
+    except Exception as e:     # noqa
+        got = 'EXC:' + type(e).__name__
+    R.nontrivial += 1
+    sig = ','.join(sorted(set(e[0] for e in seq)))
+    know = '+'.join(sorted(set(W4.knowledge(sp, cs)[0] for sp, _, cs in atoms)))
+    if not balanced:
+        R.outcomes['%s:unbalanced(%s):%s' % (fam, know, got)] += 1
+        if got != 'RINGReaderError':
+            R.violation('%s-read:unbalanced-%s:%s' % (fam, got, sig),
+                        '%r cannot be electron balanced on every atom its pattern '
+                        'admits; Read gave %s' % (text, got), wit)
+        return
+    R.outcomes['%s:balanced(%s):%s' % (fam, know, got)] += 1
+    if got != 'rule':
+        R.violation('%s-read:balanced-%s:%s' % (fam, got, sig),
+                    '%r is balanced; Read gave %s' % (text, got), wit)
+        return
+    for smis, ms, hs, comb, per, idxs in rad_prepared(pats, mol_alphabet):
+        if only is not None and list(smis) != list(only):
+            continue
+        refuse = any(W4.inapplicable(comb, idx, seq) for idx in idxs)
+        exp = None if refuse else sorted(ruleref.apply_edits(comb, idx, seq) for idx in idxs)
+        R.evals += 1
+        if idxs:
+            R.nontrivial += 1
+        want_el = ruleref.element_counts(hs)
+        cons = untouched = True
+        try:
+            args = tuple(Chem.Mol(m) for m in ms)
+            before = [(a.GetNumAtoms(), Chem.MolToSmiles(a)) for a in args]
+            res = q.RunReactants(args if len(args) > 1 else args[0])
+            untouched = before == [(a.GetNumAtoms(), Chem.MolToSmiles(a)) for a in args]
+            gotp = sorted(ruleref.product_key(ps) for ps in res)
+            cons = all(ruleref.element_counts(ps) == want_el for ps in res)
+        except Exception as e:      # noqa
+            gotp = 'EXC:%s' % type(e).__name__
+        w2 = dict(wit, mols=list(smis))
+        if not untouched:
+            R.violation('%s-run:callers-molecule-modified:%s' % (fam, sig),
+                        '%r on %r: a molecule object passed in was modified' % (text, smis), w2)
+        if refuse:
+            # some match cannot take the edit: no product set may be returned
+            if isinstance(gotp, str):
+                R.outcomes['%s-run:inapplicable:refused(%s)' % (fam, gotp[4:])] += 1
+                continue
+            R.outcomes['%s-run:inapplicable:returned' % fam] += 1
+            R.violation('%s-run:inapplicable-edit-returned:%s' % (fam, sig),
+                        '%r on %r: on at least one of the %d matches a radical decrease '
+                        'meets an atom without radical electrons, so no product set can '
+                        'carry exactly the declared edits; RunReactants returned %r '
+                        'instead of raising' % (text, smis, len(idxs), gotp[:2]), w2)
+            continue
+        if gotp == exp and cons:
+            R.outcomes['%s-run:same:%s' % (fam, 'products' if exp else 'no-match')] += 1
+            if exp and 'agnostic' in know:
+                R.sample(dict(rule=text, molecules=list(smis), product_sets=exp[:1]), limit=1)
+            continue
+        if not cons:
+            R.violation('%s-run:atoms-not-conserved:%s' % (fam, sig),
+                        '%r on %r: a product set does not conserve the atoms' % (text, smis), w2)
+        cls = gotp if isinstance(gotp, str) else (
+            'count' if len(gotp) != len(exp) else 'products')
+        R.outcomes['%s-run:differs:%s' % (fam, cls)] += 1
+        R.violation('%s-run:%s:%s' % (fam, cls, sig),
+                    '%r on %r: reference (%s matches) %r; implementation %r' % (
+                        text, smis, ' x '.join(str(len(p)) for p in per), exp[:2],
+                        gotp if isinstance(gotp, str) else gotp[:2]), w2)
+
+
+def run_rad_shard(R, shard, tier):
+    fam = shard[0]
+    for pats, E, mols in W4.rad_cases(shard, tier):
+        for seq in W4.seqs_upto(E, 3):
+            judge_rad(R, fam, pats, seq, mols, unbalanced_maxlen=W4.UNBALANCED_MAXLEN
+                      if fam != 'rad1' else None)
+
+
 def multi_cases(shard, tier):
     """-> (fam, molecule alphabet, longest unbalanced sequence that is read,
     reactant patterns, name tuples, edit sequences); the cases of the shard
@@ -526,11 +748,15 @@ def shards(tier, seed):
     for i, j, k in itertools.product(range(len(W3.T_R1)), range(len(W3.T_R2)),
                                      range(len(W3.T_R3))):
         out.append(('tri', i, j, k))
+    out += W4.rad_shards(tier)
     return out
 
 
 def run_shard(shard, tier):
     R = Result()
+    if shard[0] in ('rad1', 'rad2', 'radb'):
+        run_rad_shard(R, shard, tier)
+        return R
     if shard[0] in ('names', 'bi2', 'tri'):
         fam, mols, umax, pats, name_tuples, seqs = multi_cases(shard, tier)
         atoms = W3.combined(pats)
@@ -566,6 +792,12 @@ def run_shard(shard, tier):
 def replay(w):
     from rdkit import Chem
     R = Result()
+    if w['kind'] == 'rad':
+        fam = w['fam']
+        judge_rad(R, fam, [W4.dec_pat(p) for p in w['pats']], [tuple(e) for e in w['seq']],
+                  W4.RADB_MOLS['thorough'] if fam == 'radb' else W4.RAD_MOLS['thorough'], only=w.get('mols') or None)
+        return dict(violates=bool(R.violations),
+                    detail='\n'.join(v['msg'] for v in R.violations) or 'holds')
     if w['kind'] == 'multi':
         fam = w['fam']
         judge_multi(R, fam, [W3.dec_pat(p) for p in w['pats']], tuple(w['names']),
@@ -583,7 +815,7 @@ def replay(w):
     seq = [tuple(e) for e in w['seq']]
     mols = None
     if w.get('smiles'):
-        m = Chem.MolFromSmiles(w['smiles'])
+        m = W4.mol_from(w['smiles'])
         mh = Chem.AddHs(m)
         mols = [(w['smiles'], m, mh, ringref.G(mh))]
     judge_rule(R, atoms, seq, 'quick', mols)
